@@ -67,6 +67,27 @@ pub fn permutations(n: usize) -> Vec<Vec<u32>> {
     out
 }
 
+/// seconds since the process start of the last emitted event (watchdog)
+pub static LAST_EMIT: std::sync::atomic::AtomicU64 = std::sync::atomic::AtomicU64::new(0);
+static START: std::sync::OnceLock<std::time::Instant> = std::sync::OnceLock::new();
+fn now_s() -> u64 {
+    START.get_or_init(std::time::Instant::now).elapsed().as_secs()
+}
+/// A hang of the library under test is data: if no event is written for
+/// `limit` seconds the process aborts itself (the orchestrator then appends
+/// an `abort` event naming the call that was in progress).
+pub fn start_watchdog(limit: u64) {
+    LAST_EMIT.store(now_s(), std::sync::atomic::Ordering::Relaxed);
+    std::thread::spawn(move || loop {
+        std::thread::sleep(std::time::Duration::from_secs(2));
+        let last = LAST_EMIT.load(std::sync::atomic::Ordering::Relaxed);
+        if now_s() > last + limit {
+            eprintln!("harness watchdog: no event for {limit} s (hang)");
+            std::process::abort();
+        }
+    });
+}
+
 /// Trace output: NDJSON chunk files `<dir>/<prefix>-<k>.ndjson`; a chunk is
 /// rotated at a history boundary once it holds `chunk_events` events.
 pub struct TraceOut {
@@ -129,6 +150,7 @@ impl TraceOut {
         // the process may be aborted by the library under test: keep the
         // file complete up to the last event
         w.flush().unwrap();
+        LAST_EMIT.store(now_s(), std::sync::atomic::Ordering::Relaxed);
         self.in_chunk += 1;
         self.total_events += 1;
     }
